@@ -160,6 +160,14 @@ pub fn path_grammar(l: &Layout) -> Vec<(String, &'static str)> {
     add("nul", vec!["a\0b.txt".into(), "../sent.txt\0".into(), "\0".into(), "sub/\0/../../sent.txt".into()]);
     add("rel_sentinel_name", vec!["sent.txt".into(), "sdir/inner.txt".into(), "peer.txt".into(), "sdir".into(), format!("sdir/{name_can}.txt"), format!("{}/sent.txt", o.trim_start_matches('/')), "evilcp".into()]);
     add("rel_inside", vec!["a.txt".into(), "sub/b.txt".into(), "new.txt".into(), "sub/new2.txt".into(), "d".into(), "sub".into(), "sp ace.txt".into()]);
+    // escapes hidden behind leading / trailing white space: as given they are ordinary relative names (a first
+    // component " .." is not `..`), so they stay inside the root unless something trims AFTER validating; trimmed they
+    // resolve to the same harness-owned targets as the unpadded escapes above
+    add("padded_escape", vec![
+        " ../sent.txt".into(), "\t../sent.txt".into(), "\n../ws2/peer.txt".into(), "  ../created_pad.txt".into(), " ..".into(),
+        "../sent.txt ".into(), " ../sdir/inner.txt\n".into(), format!(" {o}/sent.txt"), format!("\t{o}/created_pad_abs.txt"),
+        format!("\n{o}/sdir"), " ../evilcp".into(),
+    ]);
     add("tilde_env", vec!["~/x".into(), "$HOME/x".into(), "~root/.profile".into()]);
     add("abs_double_slash", vec![format!("/{o}/sent.txt"), "///".into()]);
     v
@@ -343,7 +351,10 @@ pub fn run(cfg: &Cfg) -> i32 {
     r.assume("outside reads are visible through canaries (frames, tool output, files under the root) and, in the thorough tier, strace");
     let base = scratch_root().join(format!("c13-{}", cfg.shard.0));
     let _ = std::fs::create_dir_all(&base);
-    let strace_ok = cfg.tier == crate::report::Tier::Thorough || cfg.has_flag("--strace");
+    // strace: one in three children in the thorough tier, one in eight (plus the directed children) in the quick tier —
+    // a transient file outside the root (created, then removed before the operation returns) is visible only here
+    let strace_ok = true;
+    let strace_every: u64 = if cfg.tier == crate::report::Tier::Thorough || cfg.has_flag("--strace") { 3 } else { 8 };
     let strace_avail = std::process::Command::new("strace").arg("-V").output().map(|o| o.status.success()).unwrap_or(false);
     if strace_ok && !strace_avail {
         r.note("strace", json!("unavailable - monitor (4) skipped"));
@@ -366,7 +377,7 @@ pub fn run(cfg: &Cfg) -> i32 {
         if !cfg.mine(idx) {
             continue;
         }
-        let strace = strace_ok && strace_avail && (idx / cfg.shard.1) % 3 == 0;
+        let strace = strace_ok && strace_avail && ((idx / cfg.shard.1) % strace_every == 0 || idx < 5);
         one_case(cfg, &mut r, &base, idx, strace);
     }
     let _ = std::fs::remove_dir_all(&base);
